@@ -209,6 +209,12 @@ func (fx *Fx) coerce(st *State, v Val, t types.Type) Val {
 		}
 		return fx.box(st, v, t)
 	}
+	if v.X == "nil" && v.S == SRef {
+		if ts := fx.d.sortOf(t); ts != SRef {
+			fx.assumed["a nil slice is modelled as the empty sequence"] = true
+			return Val{T: t, S: ts, X: fx.d.zeroOf(t)}
+		}
+	}
 	if v.S == SInt && fx.d.sortOf(t) == SReal {
 		return Val{T: t, S: SReal, X: app("to_real", v.X)}
 	}
@@ -218,6 +224,9 @@ func (fx *Fx) coerce(st *State, v Val, t types.Type) Val {
 func (fx *Fx) assignTo(st *State, p Place, v Val) {
 	if p.loc == nil {
 		panic(unsupported("assignment to non-location"))
+	}
+	if fx.inSpec == 0 {
+		fx.guardWrite(st, p.loc)
 	}
 	v = fx.coerce(st, v, p.loc.T)
 	if p.loc.kind == locVar {
